@@ -139,6 +139,12 @@ func upExec(c *hlib.RunCtx, t *simrt.Tape) (*hlib.Violation, int) {
 		os.MkdirAll(m.loc, 0777)
 		os.WriteFile(filepath.Join(m.loc, "weekends"), []byte("3\n"), 0666)
 		m.setModeDirect([]string{"on", "on", "local"}[t.Draw(3)], start.Add(-40*24*time.Hour), t.Bool(1, 3))
+		if t.Bool(1, 5) {
+			// a mode file cut short or otherwise odd
+			odd := []string{"on 2023-0", "on ", "on 2", "on 2024-01-0", "on 2024-01-01 extra", "\xff\xfe on", " ", "on\n2024-01-01"}
+			os.WriteFile(filepath.Join(m.tele, "mode"), []byte(odd[t.Draw(len(odd))]), 0666)
+			s.Probe("odd-mode-file")
+		}
 		n := 1 + t.Draw(5)
 		for i := 0; i < n; i++ {
 			mgen.WriteCounterFile(m.t, m.s, m.loc, start.Add(-time.Duration(2+t.Draw(25))*24*time.Hour), 1+t.Draw(7), t.Biased(4, 3, 5))
